@@ -396,3 +396,157 @@ func kindAggFetch(c *Ctx, it Item) (string, error) {
 	sb.WriteString("]\n")
 	return sb.String(), nil
 }
+
+// ---------------------------------------------------------------------------------------------------------
+//	retryloop {"name","dir","func"}
+//	    → def <name> : List (String × String)   facts about the one retry loop of a request helper:
+//	        loop <how>            "label <L> + goto" or "for"
+//	        jumpcond <text>       condition of the `if` whose body jumps back (goto L / continue)
+//	        update <text>         assignments inside that `if` before the jump (in order)
+//	        invariant <ident>     an identifier of the jump condition that is NOT assigned inside the loop body
+//	                              (package names and fields of loop-assigned variables excluded): the condition
+//	                              would never change between passes
+//	        requests <n>          calls of `.Do(` inside the loop body
+func init() { register("retryloop", kindRetryLoop) }
+
+func kindRetryLoop(c *Ctx, it Item) (string, error) {
+	p, fd, err := c.FindFunc(it.Str("dir"), it.Str("func"))
+	if err != nil {
+		return "", err
+	}
+	txt := func(n ast.Node) string { return exprText(p.Fset, n) }
+	var rows [][2]string
+	add := func(k, v string) { rows = append(rows, [2]string{k, v}) }
+	// the loop: a labelled statement that some `goto` targets (body = the rest of the function), or a `for`
+	var body []ast.Stmt
+	label := ""
+	for i, st := range fd.Body.List {
+		if ls, ok := st.(*ast.LabeledStmt); ok {
+			label = ls.Label.Name
+			body = append([]ast.Stmt{ls.Stmt}, fd.Body.List[i+1:]...)
+			add("loop", "label "+label+" + goto")
+			break
+		}
+		if fs, ok := st.(*ast.ForStmt); ok {
+			body = fs.Body.List
+			add("loop", "for")
+			break
+		}
+	}
+	if body == nil && it.Str("via") == "" {
+		// the loop may have been moved into a helper method of the same receiver: follow a single such call
+		var helpers []string
+		ast.Inspect(fd.Body, func(n ast.Node) bool {
+			if ce, ok := n.(*ast.CallExpr); ok {
+				if se, ok := ce.Fun.(*ast.SelectorExpr); ok && fd.Recv != nil && len(fd.Recv.List[0].Names) == 1 {
+					if id, ok := se.X.(*ast.Ident); ok && id.Name == fd.Recv.List[0].Names[0].Name {
+						helpers = append(helpers, se.Sel.Name)
+					}
+				}
+			}
+			return true
+		})
+		if len(helpers) == 1 {
+			recvT := it.Str("func")[:strings.LastIndex(it.Str("func"), ".")]
+			it2 := Item{"kind": "retryloop", "name": it.Str("name"), "dir": it.Str("dir"), "func": recvT + "." + helpers[0], "via": helpers[0]}
+			return kindRetryLoop(c, it2)
+		}
+	}
+	if body == nil {
+		return "", fmt.Errorf("%s: no retry loop (label+goto or for) in the function body", it.Str("func"))
+	}
+	if it.Str("via") != "" {
+		add("via", it.Str("via"))
+	}
+	assigned := map[string]bool{}
+	nreq := 0
+	for _, st := range body {
+		ast.Inspect(st, func(n ast.Node) bool {
+			switch v := n.(type) {
+			case *ast.AssignStmt:
+				for _, l := range v.Lhs {
+					if id, ok := l.(*ast.Ident); ok {
+						assigned[id.Name] = true
+					}
+				}
+			case *ast.CallExpr:
+				if strings.HasSuffix(txt(v.Fun), ".Do") {
+					nreq++
+				}
+			}
+			return true
+		})
+	}
+	jumps := 0
+	var findJump func(stmts []ast.Stmt)
+	findJump = func(stmts []ast.Stmt) {
+		for _, st := range stmts {
+			is, ok := st.(*ast.IfStmt)
+			if !ok {
+				if bs, ok := st.(*ast.BlockStmt); ok {
+					findJump(bs.List)
+				}
+				continue
+			}
+			direct := false
+			for _, b := range is.Body.List {
+				if br, ok := b.(*ast.BranchStmt); ok && ((br.Tok == token.GOTO && br.Label != nil && br.Label.Name == label) || (br.Tok == token.CONTINUE && label == "")) {
+					direct = true
+				}
+			}
+			if direct {
+				jumps++
+				add("jumpcond", txt(is.Cond))
+				for _, b := range is.Body.List {
+					if as, ok := b.(*ast.AssignStmt); ok {
+						add("update", txt(as))
+					}
+				}
+				ast.Inspect(is.Cond, func(n ast.Node) bool {
+					switch v := n.(type) {
+					case *ast.SelectorExpr:
+						// resp.StatusCode: the root decides; pkg.Func: a package name
+						if id, ok := v.X.(*ast.Ident); ok {
+							if _, isPkg := p.TypesInfo.Uses[id].(interface{ Imported() interface{} }); isPkg {
+								return false
+							}
+							if obj := p.TypesInfo.Uses[id]; obj != nil && obj.Pkg() != nil && fmt.Sprintf("%T", obj) == "*types.PkgName" {
+								return false
+							}
+							if !assigned[id.Name] {
+								add("invariant", id.Name)
+							}
+							return false
+						}
+					case *ast.Ident:
+						if obj := p.TypesInfo.Uses[v]; obj != nil && fmt.Sprintf("%T", obj) == "*types.Var" && !assigned[v.Name] {
+							add("invariant", v.Name)
+						}
+					}
+					return true
+				})
+			} else {
+				findJump(is.Body.List)
+				if el, ok := is.Else.(*ast.BlockStmt); ok {
+					findJump(el.List)
+				}
+			}
+		}
+	}
+	findJump(body)
+	if jumps != 1 {
+		return "", fmt.Errorf("%s: expected exactly one jump back to the loop head, found %d", it.Str("func"), jumps)
+	}
+	add("requests", fmt.Sprintf("%d", nreq))
+	var sb strings.Builder
+	fmt.Fprintf(&sb, "def %s : List (String × String) := [\n", it.Str("name"))
+	for i, r := range rows {
+		sep := ","
+		if i == len(rows)-1 {
+			sep = ""
+		}
+		fmt.Fprintf(&sb, "  (%s, %s)%s\n", leanStr(r[0]), leanStr(r[1]), sep)
+	}
+	sb.WriteString("]\n")
+	return sb.String(), nil
+}
